@@ -117,3 +117,65 @@ def check_c04(rep):
     run_generated(rep, "public control calls: transmitted frame read by the vendor-derived reference reading", _c11_scripts(q, 4),
                   also=("Addressing", "GarbledFrame"))
     rep.assumptions += API_ASSUME
+
+
+def _pair_cases(tr4, tr5):
+    """Align the two recorded executions step by step (purely positional)."""
+    def extract(tr):
+        snaps, cmds = [], []
+        i = 0
+        while i < len(tr):
+            ev = tr[i]
+            if ev["e"] == "snapshot" and ev.get("tag") == "pair":
+                acs = ev["model"]["air_conditioners"]
+                snaps.append(acs if isinstance(acs, list) else [])
+            if ev["e"] == "call" and ev.get("target", "socket") != "socket" and ev["method"] not in ("init", "shutdown"):
+                cid = ev["id"]
+                frame, res = [], "none"
+                j = i + 1
+                while j < len(tr) and tr[j]["e"] != "quiesce":
+                    if tr[j]["e"] == "write":
+                        frame += tr[j]["b"]
+                    if tr[j]["e"] == "ret" and tr[j]["id"] == cid:
+                        res = tr[j]["res"]
+                    j += 1
+                cmds.append((res, frame))
+            i += 1
+        return snaps, cmds
+    s4, c4 = extract(tr4)
+    s5, c5 = extract(tr5)
+    cases = [{"k": "snap", "a": a, "b": b} for a, b in zip(s4, s5)]
+    cases += [{"k": "cmd", "ra": a[0], "rb": b[0], "fa": a[1], "fb": b[1]} for a, b in zip(c4, c5)]
+    return cases, len(s4) == len(s5) and len(c4) == len(c5)
+
+
+def check_c19(rep):
+    q = rep.tier == "quick"
+    scripts, pairs = [], []
+    for s in seeds(150 if q else 3000, 19):
+        s4, s5, meta = GC.c19_pair(s)
+        scripts.append((f"c19-{s}-at4", "at4", s4, dict(meta, proto="at4")))
+        scripts.append((f"c19-{s}-at5", "at5", s5, dict(meta, proto="at5")))
+        pairs.append(s)
+    verdicts, metas = PC.run_batch(rep, scripts)
+    judge(rep, verdicts, metas)
+    traces = []
+    for s in pairs:
+        tr4, tr5 = metas[f"c19-{s}-at4"][3], metas[f"c19-{s}-at5"][3]
+        if tr4 is None or tr5 is None:
+            continue
+        cases, aligned = _pair_cases(tr4, tr5)
+        if not aligned:
+            rep.machinery.append(f"pair {s}: executions do not align")
+            continue
+        traces.append({"id": f"pair-{s}", "proto": "at4", "cases": cases, "ev": cases})
+    v2, stats = lib.validate("Check_Pair", traces, cfg="INIT Init\nNEXT Next\nCHECK_DEADLOCK FALSE\n")
+    rep.add_tlc(stats)
+    for sid, viol in v2.items():
+        for clause, k in viol:
+            s = sid.split("-")[1]
+            rep.violation(clause, f"pair={sid} case={k}", {"key": clause, "clause": clause, "seed": int(s),
+                                                          "script_at4": metas[f"c19-{s}-at4"][1], "script_at5": metas[f"c19-{s}-at5"][1]})
+    rep.part("paired histories (same abstract installation, status changes and calls) on both generations", pairs=len(pairs))
+    rep.sample({"kind": "paired scenario", "steps": scripts[0][3]["steps"], "at4_head": scripts[0][2][:8]})
+    rep.assumptions += API_ASSUME + ["paired scenarios use integer temperatures, the common enums, turbo-capable zones and equal limits for all modes (documented differences masked)"]
